@@ -43,7 +43,7 @@ Definition before (pa pb : string * list string * list string -> bool) evs : boo
 Definition starttag_under_recvMu := all_under "StartTag" "recvMu" handleRequest_events.
 Definition capture_under_recvMu := all_under "TagDone" "recvMu" handleRequest_events.
 Definition capture_guarded :=
-  forallb (fun e => if is_ev "TagDone" e then smem "v6 && v8.OldTag != v0" (ev_conds e) && smem "v8, v7 := v1.(*tflush); v7" (ev_conds e) else true) handleRequest_events.
+  forallb (fun e => if is_ev "TagDone" e then smem "v5 && v7.OldTag != v0" (ev_conds e) && smem "v7, v6 := v1.(*tflush); v6" (ev_conds e) else true) handleRequest_events.
 Definition starttag_before_capture := before (is_ev "StartTag") (is_ev "TagDone") handleRequest_events.
 Definition capture_before_spawn := before (is_ev "TagDone") (is_ev "spawn") handleRequest_events.
 Definition spawn_before_unlock := before (is_ev "spawn") (is_main "recvMu.Unlock") handleRequest_events
@@ -102,12 +102,12 @@ Lemma tie_chan_send_sites : chan_send_sites = ["client.go:Client.handleOne"; "cl
 
 (** the request loop touches only its own connection's state (plus the logger, the message
     registry and the buffer pool): connections share nothing here (Loop/Multi.v) *)
-Lemma tie_loop_state : loop_state = ["cs.ClearTag"; "cs.StartTag"; "cs.TagDone"; "cs.handle"; "cs.handleRequest"; "cs.handleRequests"; "cs.messageSize"; "cs.pendingWg"; "cs.r"; "cs.recvIdle"; "cs.recvMu"; "cs.recvShutdown"; "cs.sendMu"; "cs.server.log"; "cs.t"; "cs.tagMu"; "cs.tags"; "var dataPool"; "var msgDotLRegistry"]. Proof. reflexivity. Qed.
+Lemma tie_loop_state : loop_state = ["cs.ClearTag"; "cs.StartTag"; "cs.TagDone"; "cs.frameLimit"; "cs.handle"; "cs.handleRequest"; "cs.handleRequests"; "cs.pendingWg"; "cs.r"; "cs.recvIdle"; "cs.recvMu"; "cs.recvShutdown"; "cs.sendMu"; "cs.server.log"; "cs.t"; "cs.tagMu"; "cs.tags"; "var dataPool"; "var msgDotLRegistry"]. Proof. reflexivity. Qed.
 
 (** which tag / message / reply each call gets: recv binds (tag, message, error); StartTag, ClearTag and both
     sends use that tag; handle gets that message; the second send gets handle's result.  Locals are numbered
     in order of appearance, so this is insensitive to their names. *)
-Definition expected_calls : list string := ["v0, v1, v2 := recv(cs.server.log, cs.t, v3, msgDotLRegistry.get)"; "v6 = cs.StartTag(v0)"; "v8.wait = cs.TagDone(v8.OldTag)"; "v9 := send(cs.server.log, cs.r, v0, newErr(v2))"; "v10 := cs.handle(v1)"; "cs.ClearTag(v0)"; "v2 = send(cs.server.log, cs.r, v0, v10)"; "msgDotLRegistry.put(v1)"].
+Definition expected_calls : list string := ["v0, v1, v2 := recvFrame(cs.server.log, cs.t, cs.frameLimit, msgDotLRegistry.get)"; "v5 = cs.StartTag(v0)"; "v7.wait = cs.TagDone(v7.OldTag)"; "v8 := send(cs.server.log, cs.r, v0, newErr(v2))"; "v9 := cs.handle(v1)"; "cs.ClearTag(v0)"; "v2 = send(cs.server.log, cs.r, v0, v9)"; "msgDotLRegistry.put(v1)"].
 Lemma tie_calls : handleRequest_calls = expected_calls. Proof. reflexivity. Qed.
 
 (** the whole table, as the model was written against it *)
@@ -118,20 +118,20 @@ Definition expected_events : list (string * list string * list string) := [
   ("recvMu.Unlock", ["cs.recvShutdown"], ["recvMu"]);
   ("return", ["cs.recvShutdown"], []);
   ("recv", [], ["recvMu"]);
-  ("set-shutdown:true", ["v5, v4 := v2.(ConnError); v4"], ["recvMu"]);
-  ("recvMu.Unlock", ["v5, v4 := v2.(ConnError); v4"], ["recvMu"]);
-  ("return", ["v5, v4 := v2.(ConnError); v4"], []);
+  ("set-shutdown:true", ["v4, v3 := v2.(ConnError); v3"], ["recvMu"]);
+  ("recvMu.Unlock", ["v4, v3 := v2.(ConnError); v3"], ["recvMu"]);
+  ("return", ["v4, v3 := v2.(ConnError); v3"], []);
   ("StartTag", ["v2 == nil || v2 == io.EOF"], ["recvMu"]);
-  ("set-wait:nil", ["v2 == nil || v2 == io.EOF"; "v8, v7 := v1.(*tflush); v7"], ["recvMu"]);
-  ("TagDone", ["v2 == nil || v2 == io.EOF"; "v8, v7 := v1.(*tflush); v7"; "v6 && v8.OldTag != v0"], ["recvMu"]);
-  ("set-wait:cs.TagDone(v8.OldTag)", ["v2 == nil || v2 == io.EOF"; "v8, v7 := v1.(*tflush); v7"; "v6 && v8.OldTag != v0"], ["recvMu"]);
+  ("set-wait:nil", ["v2 == nil || v2 == io.EOF"; "v7, v6 := v1.(*tflush); v6"], ["recvMu"]);
+  ("TagDone", ["v2 == nil || v2 == io.EOF"; "v7, v6 := v1.(*tflush); v6"; "v5 && v7.OldTag != v0"], ["recvMu"]);
+  ("set-wait:cs.TagDone(v7.OldTag)", ["v2 == nil || v2 == io.EOF"; "v7, v6 := v1.(*tflush); v6"; "v5 && v7.OldTag != v0"], ["recvMu"]);
   ("spawn", ["atomic.LoadInt32(&cs.recvIdle) == 0"], ["recvMu"]);
   ("recvMu.Unlock", [], ["recvMu"]);
   ("sendMu.Lock", ["v2 != nil && v2 != io.EOF"], []);
   ("send", ["v2 != nil && v2 != io.EOF"], ["sendMu"]);
   ("sendMu.Unlock", ["v2 != nil && v2 != io.EOF"], ["sendMu"]);
   ("return", ["v2 != nil && v2 != io.EOF"], []);
-  ("return", ["!v6"], []);
+  ("return", ["!v5"], []);
   ("handle", [], []);
   ("ClearTag", [], []);
   ("sendMu.Lock", [], []);
